@@ -62,7 +62,7 @@ OPTIONS = [dict(useSandT=a, use_closed_attrib=b, rel=c)
 def templates(level):
     """level 'full' or 'reduced'"""
     if level == 'full':
-        starts, ends, ctrls, arcs = ['cont', 'new', 'back'], ['fresh', 'sub', 'first', 'interior'], \
+        starts, ends, ctrls, arcs = ['cont', 'new', 'back', 'ulp'], ['fresh', 'sub', 'first', 'interior'], \
             ['generic', 'reflect', 'reflect2', 'at_start'], range(len(ARCS))
     else:
         starts, ends, ctrls, arcs = ['cont', 'new'], ['fresh', 'sub'], ['generic', 'reflect', 'at_start'], [0]
@@ -104,6 +104,12 @@ def build(word, emb, skip=0):
             if first is None or first == pen:
                 return None, 'back_is_cont'
             start = first
+            newsub = True
+        elif st == 'ulp':
+            # a new subpath that starts one ulp (in x) away from the pen
+            if pen is None:
+                return None, 'ulp_without_pen'
+            start = complex(math.nextafter(pen.real, math.inf), pen.imag)
             newsub = True
         if pen is None and st != 'new':
             return None, 'first_must_be_new'
